@@ -17,9 +17,49 @@ use crate::data::{
 };
 use std::collections::{HashMap, HashSet};
 
-pub fn validate_ast(file: File) -> Result<validated::File, KikiErr> {
+//@[ C10 the validated file is the input file: same start name, same terminal declaration, the struct / enum declarations in order
+pub open spec fn validated_view(f: File, v: validated::File) -> bool {
+    let items = f.items@;
+    &&& v.start@ == sel_starts(items)[0].name@
+    &&& terminal_def_view(sel_terminals(items)[0], v.terminal_enum)
+    &&& v.nonterminals@.len() == sel_nonterminals(items).len()
+    &&& forall|j: int| 0 <= j < v.nonterminals@.len() ==> #[trigger] v.nonterminals@[j] == nt_of_item(sel_nonterminals(items)[j])
+}
+//@]
+
+pub fn validate_ast(file: File) -> /*@[*/(r: /*@]*/Result<validated::File, KikiErr>/*@[*/)/*@]*/
+    //@[ C10 validate_ast: Ok only for a statically well-formed file (and the validated file is that file); an error is true of the file
+    ensures match r {
+        Ok(v) => file_wf(file) && validated_view(file, v),
+        Err(e) => err_truthful(file, e),
+    },
+    //@]
+{
     let terminal_enum = get_terminal_enum(&file)?;
     let nonterminals = get_nonterminals(&file)?;
+    //@[ proof
+    proof {
+        let items = file.items@;
+        let sel = sel_nonterminals(items);
+        let nv = nonterminals@;
+        assert forall|a: Seq<char>| nts_have(nv, a) <==> nt_defined(items, a) by {
+            if nts_have(nv, a) {
+                let j = choose|j: int| 0 <= j < nv.len() && nt_name(#[trigger] nv[j]) == a;
+                lemma_sel_nonterminals_in(items, j);
+                let i = choose|i: int| 0 <= i < items.len() && item_is_nt(#[trigger] items[i]) && items[i] == sel[j];
+                assert(nv[j] == nt_of_item(sel[j]));
+                assert(item_name(items[i]).name@ == a);
+            }
+            if nt_defined(items, a) {
+                let i = choose|i: int| 0 <= i < items.len() && item_is_nt(#[trigger] items[i]) && item_name(items[i]).name@ == a;
+                lemma_sel_nonterminals_has(items, i);
+                let j = choose|j: int| 0 <= j < sel.len() && #[trigger] sel[j] == items[i];
+                assert(nv[j] == nt_of_item(sel[j]));
+                assert(nt_name(nv[j]) == a);
+            }
+        }
+    }
+    //@]
     let start = get_start_symbol_name(&file, &nonterminals)?;
     assert_there_are_no_top_level_name_clashes(&file)?;
 
